@@ -217,11 +217,41 @@ def generate(repo, outdir):
     # sample_response retry budgets (constants of the loops)
     order = ["clapotisFu", "clapotisFv", "sampleIdeal", "dim2Commit", "dim2Aux", "dim2AuxIdeal", "dim2Guard", "dim2Keygen",
              "heurCommit", "heurAux", "heurAuxIdeal", "heurGuard", "heurKeygen", "hdCommit", "hdKeygen", "exactValuation", "fixedDegGuard"]
+    # ---- loop budgets of the control skeleton (each loop header must have exactly this shape)
+    budgets = {}
+
+    def grab(rel, fn, pattern, name):
+        t, _ = load(rel)
+        b = re.sub(r"\s+", "", function_body(t, fn, rel))
+        m = re.findall(pattern, b)
+        if len(m) != 1:
+            raise Unsupported("%s:%s: loop header for %s not found exactly once" % (rel, fn, name))
+        return m[0]
+    budgets["findUvAttempts"] = int(grab("dim2id2iso/ref/dim2id2isox/dim2id2iso.c", "dim2id2iso_ideal_to_isogeny_clapotis",
+                                         r"while\(!found&\(num_iter_find_uv<(\d+)\)\)", "find_uv"))
+    budgets["nonDiagAttempts"] = int(grab("dim2id2iso/ref/dim2id2isox/dim2id2iso.c", "fixed_degree_isogeny",
+                                          r"while\(!found&&count<(\d+)\)", "represent_integer_non_diag"))
+    budgets["sampleDim2"] = int(grab("sqisigndim2/ref/sqisigndim2x/sign.c", "sample_response", r"while\(!found&&count<(\d+)\)", "sample_response"))
+    for var, d in (("Heur", "sqisigndim2_heuristic/ref/sqisigndim2_heuristicx"), ("Hd", "sqisignhd/ref/sqisignhdx")):
+        grab(d + "/sign.c", "sample_response", r"while\(!found&&cnt<2\*\(2\*m\+1\)\*\(2\*m\+1\)\*\(2\*m\+1\)\*\(2\*m\+1\)\)", "sample_response")
+        m = int(grab(d + "/sign.c", "sample_response", r"intm=(\d+);", "m"))
+        budgets["sample" + var] = 2 * (2 * m + 1) ** 4
+    for rel, fn in (("klpt/ref/klptx/tools.c", "represent_integer"), ("klpt/ref/klptx/tools.c", "represent_integer_non_diag")):
+        grab(rel, fn, r"while\(!found&&cnt<(KLPT_repres_num_gamma_trial)\)", "gamma trials")
+    # the keygen retry loops are unbounded do { ... } while (!found): recorded as such
+    for d in ("sqisigndim2/ref/sqisigndim2x", "sqisigndim2_heuristic/ref/sqisigndim2_heuristicx", "sqisignhd/ref/sqisignhdx"):
+        t, rel = load(d + "/keygen.c")
+        b = re.sub(r"\s+", "", function_body(t, "protocols_keygen", rel))
+        if flags[{"sqisigndim2/ref/sqisigndim2x": "dim2", "sqisigndim2_heuristic/ref/sqisigndim2_heuristicx": "heur", "sqisignhd/ref/sqisignhdx": "hd"}[d] + "Keygen"] \
+                and not re.search(r"\}while\(!found\);", b):
+            raise Unsupported(rel + ": keygen result used but not through the do-while retry the model assumes")
     lines = ["/- GENERATED by tools/translate/signflow.py from /repo — do not edit.",
              "   Control-flow shape of keygen / sign: which call sites use the result of a fallible step. -/",
              "namespace SqiGen.SignFlow"]
     for k in order:
         lines.append("def %s : Bool := %s" % (k, "true" if flags[k] else "false"))
+    for k in ("findUvAttempts", "nonDiagAttempts", "sampleDim2", "sampleHeur", "sampleHd"):
+        lines.append("def %s : Nat := %d" % (k, budgets[k]))
     lines.append("end SqiGen.SignFlow")
     ch = vlib.write_if_changed(os.path.join(outdir, "SignFlow.lean"), "\n".join(lines) + "\n")
     return ["SignFlow.lean %s (%s)" % ("rewritten" if ch else "unchanged",
